@@ -1017,6 +1017,27 @@ func extractRouting(repo, root string) error {
 		us.order[i] = "." + us.order[i]
 	}
 	fmt.Fprintf(&b, "def updateApplyOrder : List SetRole := [%s]\n\n", strings.Join(us.order, ", "))
+	keeps, stores, succ, err := updateStateWrites(repo)
+	if err != nil {
+		return err
+	}
+	has := func(x string) bool {
+		for _, y := range succ {
+			if y == x {
+				return true
+			}
+		}
+		return false
+	}
+	b.WriteString("/-- transport.go update, what is written to the cached state: a failed refresh keeps a known view (early return when\nmetadata is cached) and otherwise stores the error; a successful refresh installs the new metadata and layout and CLEARS the error -/\n")
+	fmt.Fprintf(&b, "def updateErrorKeepsKnown : Bool := %v\ndef updateErrorStoresErr : Bool := %v\ndef updateSuccessSetsMetadata : Bool := %v\ndef updateSuccessSetsLayout : Bool := %v\ndef updateSuccessClearsErr : Bool := %v\n\n",
+		keeps, stores, has("metadata=new"), has("layout=new"), has("err=nil"))
+	if err := emitPrepare(repo, &b); err != nil {
+		return err
+	}
+	if err := emitSplitFields(repo, &b); err != nil {
+		return err
+	}
 	guard, err := brokerConnGuard(repo)
 	if err != nil {
 		return err
